@@ -4,6 +4,45 @@ from ..core import Report
 from ..model import norm as norm_
 
 
+def flush_before_write(prog, rep, rule="AGE-FRESH"):
+    import ast
+
+    from ..cfg import cfg_of
+    from ..model import walk_own
+    from ..sqlmodel import single_def
+
+    cls = prog.cls("SqliteStorage")
+    flushing = {m.name for m in cls.methods.values() if m.name.startswith("get_") and any(isinstance(c, ast.Call) and norm_(c.func) == "self.commit" for c in walk_own(m.node))}
+    via_bucket = {"get": "get_events", "get_by_id": "get_event", "get_eventcount": "get_eventcount"}
+    b = prog.cls("Bucket")
+    for mname in ("insert", "replace", "replace_last", "delete"):
+        fi = b.methods.get(mname)
+        if fi is None:
+            continue
+        g = cfg_of(fi)
+        writes = [c for c in prog.all_calls(fi) if isinstance(c.func, ast.Attribute) and norm_(c.func.value) == "self.ds.storage_strategy" and c.func.attr in ("insert_one", "insert_many", "replace", "replace_last", "delete")]
+        reads = [c for c in prog.all_calls(fi) if isinstance(c.func, ast.Attribute) and ((norm_(c.func.value) == "self" and via_bucket.get(c.func.attr) in flushing) or (norm_(c.func.value) == "self.ds.storage_strategy" and c.func.attr in flushing))]
+        bad = None
+        for r in reads:
+            rn = g.node_of(r)
+
+            def dead(lab):
+                # a branch taken only when a local that is bound once to the constant False is true
+                if not lab or lab[0] != "cond" or not isinstance(lab[1], ast.Name):
+                    return False
+                d = single_def(fi, lab[1].id)
+                return isinstance(d, ast.Constant) and d.value is False and lab[2] is True
+
+            live = g.reach_filtered(g.entry, lambda u, v, lab: not dead(lab)) | {g.entry}
+            if rn not in live:
+                continue
+            after = g.reach_avoiding([rn])
+            for w in writes:
+                if g.node_of(w) in after:
+                    bad = bad or (r, w)
+        rep.check(bad is None, rule, fi.short, "no flushing read ahead of the write", f"{len(reads)} read call(s), none on a live path to the write", (f"`{norm_(bad[0])[:50]}` runs before `{norm_(bad[1])[:50]}`: the storage's {sorted(flushing)} commit first and re-stamp the time of the last flush, so the write that follows always finds a flush a moment old, the age test never fires for it, and under a slow trickle of writes nothing is flushed by age" if bad else ""), fi.loc(bad[0]) if bad else fi.loc())
+
+
 def check(prog, rep):
     rep.level = "proof"
     rep.explanation = (
@@ -35,6 +74,32 @@ def check(prog, rep):
             rep.obligations.append(o)
     rep.rules["COMMIT-B"] = sub.rules["COMMIT-B"]
     rep.errors += sub.errors
+    # every event write issued through a Bucket reaches the storage (and with it conditional_commit): the wrapper answers none itself
+    from ..rules_wrap import wrapper_rules
+
+    wrapper_rules(prog, rep, parts=("state", "reaches"))
+    # ... and nothing flushes just before it: the storage's read methods commit first (and re-stamp the time of the last flush),
+    # so a read issued by the wrapper ahead of the write makes the age test measure from that read and never fire
+    flush_before_write(prog, rep)
+    # the age is a difference of two naive local clock readings: nothing in the packages moves the process's local time zone
+    import ast as _ast
+
+    rep.rule("AGE-ZONE", "no code of the packages calls time.tzset() or assigns os.environ['TZ']: the age of the open transaction is datetime.now() - last_commit on the naive local clock, so a zone change between the two readings shifts the difference by the zone offset (hours), and the age flush does not fire for that long (or fires spuriously)")
+    nz = 0
+    for f_ in prog.funcs.values():
+        if not f_.mod.name.startswith("aw_"):
+            continue
+        for x_ in _ast.walk(f_.node):
+            if isinstance(x_, _ast.Call) and norm_(x_.func) in ("time.tzset", "tzset"):
+                nz += 1
+                rep.violation("AGE-ZONE", f_.short, "time.tzset()", f"`{norm_(x_)}` re-reads the TZ variable and moves the process's local time: a store opened before the call has stamped last_commit on the old local clock, datetime.now() is on the new one, and their difference is off by the zone offset: for hosts east of the new zone the age stays negative for hours and no write is flushed by age", f_.loc(x_))
+            if isinstance(x_, (_ast.Assign, _ast.AugAssign)):
+                for t_ in (x_.targets if isinstance(x_, _ast.Assign) else [x_.target]):
+                    if isinstance(t_, _ast.Subscript) and norm_(t_.value) == "os.environ" and isinstance(t_.slice, _ast.Constant) and t_.slice.value == "TZ":
+                        nz += 1
+                        rep.violation("AGE-ZONE", f_.short, "os.environ['TZ'] =", "the process's time zone variable is re-assigned", f_.loc(x_))
+    if not nz:
+        rep.ok("AGE-ZONE", "aw_*", "zone changes", "none", None)
     # the commit bookkeeping (counter, time of the last flush) belongs to one store: nothing of it is shared between instances
     from ..rules_store import instance_state
 
@@ -43,6 +108,8 @@ def check(prog, rep):
 
 SQ = "aw_datastore/storages/sqlite.py"
 VARIANTS = [
+    ("B logging set-up switches the process to UTC", "aw_core/log.py", "def setup_logging(", "def _utc():\n    import time\n\n    os.environ[\"TZ\"] = \"UTC\"\n    time.tzset()\n\n\ndef setup_logging(", "AGE-ZONE"),
+
     ("B a flag lets conditional_commit count and return without any test", "aw_datastore/storages/sqlite.py", "        if self.enable_lazy_commit:\n            self.num_uncommitted_statements += num_statements\n", "        if getattr(self, \"hold_commits\", False):\n            self.num_uncommitted_statements += num_statements\n            return\n        if self.enable_lazy_commit:\n            self.num_uncommitted_statements += num_statements\n", "AGE"),
     ("B commit() swallows a failed flush and stamps anyway", SQ, "        self.conn.commit()\n        self.last_commit = datetime.now()", "        try:\n            self.conn.commit()\n        except sqlite3.OperationalError as e:\n            logger.warning(f\"Commit failed: {e}\")\n        self.last_commit = datetime.now()", "AGE-STAMP"),
     ("B operands reversed (original defect)", SQ, "if (datetime.now() - self.last_commit) > timedelta(seconds=10):", "if (self.last_commit - datetime.now()) > timedelta(seconds=10):", "AGE"),
